@@ -22,9 +22,16 @@ class CustomError(Exception):
     pass
 
 
+class Abort(BaseException):
+    """what a framework around the forward model may use to unwind (compare asyncio.CancelledError, pytest's Exit, SystemExit): a user exception
+    that is not an `Exception`"""
+
+
 EXC = {"KeyboardInterrupt": KeyboardInterrupt, "RuntimeError": RuntimeError, "ValueError": ValueError, "CustomError": CustomError,
        # exception classes the loop also uses for its own purposes: raised by *user code* they are user exceptions like any other
-       "TimeoutError": TimeoutError, "FileExistsError": FileExistsError, "AssertionError": AssertionError, "StopIteration": StopIteration}
+       "TimeoutError": TimeoutError, "FileExistsError": FileExistsError, "AssertionError": AssertionError, "StopIteration": StopIteration,
+       # user exceptions that do not derive from Exception
+       "Abort": Abort, "SystemExit": SystemExit, "GeneratorExit": GeneratorExit}
 
 
 class Rig:
@@ -311,7 +318,7 @@ def run(tier, seed):
                "with the continued generator); non-trivial = fault after at least one completed append")
     sto = Suite("C08.timeouts", "every time-out instant under a scripted clock (time as a function of the proposal index; monotone, jumping, "
                 "non-monotone) vs model runTimeout; then the sampler is re-used without a limit; non-trivial = stop strictly inside the run")
-    kinds = ["KeyboardInterrupt", "RuntimeError", "TimeoutError"] + (["ValueError", "CustomError", "FileExistsError", "AssertionError", "StopIteration"] if thorough else [])
+    kinds = ["KeyboardInterrupt", "RuntimeError", "TimeoutError", "Abort"] + (["ValueError", "CustomError", "FileExistsError", "AssertionError", "StopIteration", "SystemExit", "GeneratorExit"] if thorough else [])
     reqs, metas = [], []
     with scratch() as tmp:
         for ri, rig in enumerate(rigs(rnd, tier)):
